@@ -1,7 +1,9 @@
 /- Line-protocol driver for M9 Segments.
    seg <n> | <a>-<b>,... | <link>-<node>,... | <demands p/q ...> | <lengths p/q ...>
      -> `ok NL=<node labels> LL=<link labels> SZ=<label>:<nodes>:<links>;... A=<row>:<num_surround>:<demand_increase>:<length_increase>;...`
-        or `invalid` when a row of the layer does not name a link and one of its ends / a self-loop occurs
+        or `invalid` when a row of the layer does not name a link and one of its ends / a self-loop occurs.
+        CP = the component id of every node from the concrete components function `compChecked` (proved to satisfy `CompOk`);
+        `components-not-closed` if its final closure test fails (never observed; Lemmas/SegmentsComp.lean needs no such case)
 -/
 import WntrModel.Model.Segments
 open Wntr.Segments
@@ -40,8 +42,10 @@ def handle (line : String) : String :=
     | some n =>
       let inp : Inp := { n := n, links := pairs links, layer := pairs layer }
       if !inp.valid then "invalid" else
-      let cl := compLabels inp
-      let comp := fun u => cl.getD u u
+      match compChecked inp with
+      | none => "components-not-closed"
+      | some cl =>
+      let comp := fun u => cl.getD u 0
       let nlab := (List.range inp.n).map (inp.nodeLabel comp)
       let llab := (List.range inp.nl).map (inp.linkLabel comp)
       let nf := fun u => nlab.getD u 0
@@ -54,7 +58,7 @@ def handle (line : String) : String :=
       let attrs := ";".intercalate (rows.map fun r =>
         s!"{r.1}:{numSurround rows nf lf r.2}:{showRat (demandIncrease inp.n nf lf (fun u => d.getD u 0) r.2)}:" ++
         s!"{showRat (lengthIncrease inp.nl nf lf (fun k => l.getD k 0) r.2)}")
-      s!"ok NL={commaN nlab} LL={commaN llab} SZ={sz} A={attrs}"
+      s!"ok NL={commaN nlab} LL={commaN llab} SZ={sz} A={attrs} CP={commaN ((List.range inp.n).map comp)}"
   | _ => "bad-op"
 
 partial def loop (h : IO.FS.Stream) : IO Unit := do
